@@ -1,7 +1,12 @@
-"""C03 — Umeyama alignment (partial: guards, scale constant, sign-fix flow)."""
+"""C03 — Umeyama alignment (partial: guards, scale constant, sign-fix flow and
+value, typed equivariance under moving / scaling / permuting the points)."""
 from __future__ import annotations
 
+from fractions import Fraction
+from typing import Optional
+
 from .. import terms as tm
+from ..equivariance import Analyzer, Inequivariant, SP_X, SP_Y, Unknown
 from ..interp import Interp
 from ..lib import fmt, is_call_to
 from ..terms import T, const
@@ -21,33 +26,62 @@ something else, or applying it to the rotation but not to the scale trace is
 reported. C03.5 (numerical-stability lint): the covariance fed to the SVD is
 built from centred points; the one-pass form E[y x^T] - mean_y mean_x^T
 cancels catastrophically for large common offsets, which the property's
-quantifier includes.
+quantifier includes (a product with at least one centred factor is fine).
+C03.6 equivariance typing (sa/equivariance.py, an abstract interpretation of
+the returned terms): every intermediate value is typed with the coordinate
+space of each axis (x-space, y-space, point index, singular index), its
+homogeneity degrees in the two input scales and in the number of points, and
+its exact sensitivity to moving the two point sets (a formal linear
+combination of matrix products). Linear operations propagate these; norms,
+outer products, the SVD, determinants, traces and divisions demand
+translation-invariant operands; sums over the points must run over all of
+them with paired indices and be normalised. Decided from this: r maps x-space
+to y-space and is invariant; c scales like ly/lx and is invariant under
+moves; t is a y-space vector that changes by exactly b - c r a; nothing grows
+with the number of points. With with_scale=False only joint scaling is an
+equivariance and degrees are compared jointly. C03.7 the correction itself:
+S = identity with its last diagonal entry -1, taken exactly when
+det(u) det(v) is negative.
 """
 UNDECIDED = [
     "least-squares optimality of the returned transform",
     "properness of the rotation for every input (numerical)",
-    "noise-free recovery, equivariance under moving/scaling/permuting points",
-    "which inputs count as degenerate; direction of the `< 0` test",
+    "noise-free recovery (follows from optimality, not from typing)",
+    "which inputs count as degenerate (rank threshold)",
+    "floating-point accuracy of the equivariances (they are decided as "
+    "exact algebraic identities of the formulas, not of rounded results)",
 ]
 TRUSTED = ["numpy.linalg.svd returns (u, d, vT)", "numpy.linalg.det"]
 ASSUMPTIONS = ["the recognised sign-fix idioms are: S-matrix of the paper, "
                "flipping the last singular value, flipping the last "
                "column/row of a factor"]
 MANIFEST = dict(
-    text="Partial claim. Decides only the guard structure (unequal shapes "
-         "and degenerate singular values are refused before anything is "
+    text="Partial claim. Decides the guard structure (unequal shapes and "
+         "degenerate singular values are refused before anything is "
          "returned), the exact constant scale 1.0 without scale estimation, "
-         "and the dataflow of the reflection fix (keyed on det of both SVD "
-         "factors, reaching both the returned rotation and the returned "
-         "scale). These are necessary conditions of the property; the "
-         "least-squares / properness / equivariance core is numerical and "
-         "NOT decided by static analysis.",
-    note="Undecided: optimality, properness for all inputs, equivariance, "
-         "adequacy of the degeneracy threshold. numpy.linalg is trusted.",
+         "the dataflow and the value of the reflection fix (keyed on det of "
+         "both SVD factors, S = diag(1,..,1,-1), reaching the returned "
+         "rotation, scale and translation), and — by typing every "
+         "intermediate value with coordinate space, homogeneity degrees and "
+         "translation sensitivity — the equivariance clause as an algebraic "
+         "identity of the formulas: moving the sets changes t by exactly "
+         "b - c r a and nothing else, scaling changes (r, t, c) by "
+         "(1, ly, ly/lx), permuting or replicating the points changes "
+         "nothing, and x-space and y-space coordinates are never mixed. "
+         "These are necessary conditions of the property; least-squares "
+         "optimality and properness for every input are numerical and NOT "
+         "decided by static analysis.",
+    note="Undecided: optimality, properness for all inputs, noise-free "
+         "recovery, adequacy of the degeneracy threshold, rounding. "
+         "numpy.linalg is trusted (SVD factors orthogonal, singular values "
+         "homogeneous of degree 1).",
     technique="dominance via live-condition folding + constant propagation "
-              "+ def-use reachability on provenance terms",
+              "+ def-use reachability on provenance terms + abstract "
+              "interpretation in an equivariance type domain (axis roles, "
+              "homogeneity degrees, affine translation weights)",
 )
-FLOORS = {"C03.1": 1, "C03.2": 1, "C03.3": 1, "C03.4": 3, "C03.5": 1}
+FLOORS = {"C03.1": 1, "C03.2": 1, "C03.3": 1, "C03.4": 3, "C03.5": 1,
+          "C03.6": 8, "C03.7": 2}
 FN = "evo.core.geometry.umeyama_alignment"
 
 
@@ -160,8 +194,11 @@ def check(ctx):
                 ctx.undecidable("C03.5", f, f"covariance construction not "
                                 f"recognised: {fmt(cov)}")
             else:
+                # a product with at least one centred factor is stable: the
+                # offset of the other factor is multiplied by values that
+                # sum to zero
                 raw = [(t_, o) for t_, ops_ in prods for o in ops_
-                       if not centred(o)]
+                       if not any(centred(z) for z in ops_)]
                 ok = not raw
                 ctx.ob("C03.5", f, ok,
                        "the covariance is accumulated from *centred* points "
@@ -217,9 +254,193 @@ def check(ctx):
                    "corrected rotation/scale" if in_t else
                    "translation does not use the corrected rotation",
                    key="C03.4:sign-fix-translation")
+        _sign_fix_value(ctx, f, ws, ret, fixes)
+        _equivariance(ctx, f, ws, ret, x, y)
 
 
+def _sign_fix_value(ctx, f, ws, ret, fixes):
+    """C03.7: what the correction does. Recognised idiom (Umeyama eq. 43):
+    S = identity with the *last* diagonal entry set to -1."""
+    if not fixes:
+        return
+    fx = fixes[0]
+    alts = [a for a in (fx.args[1], fx.args[2]) if a.op == "upd"]
+    if len(alts) != 1 or not is_call_to(alts[0].args[0], "numpy.eye",
+                                        "numpy.identity"):
+        ctx.undecidable("C03.7", f, f"[with_scale={ws}] form of the "
+                        f"reflection correction not recognised: "
+                        f"{fmt(fx)[:120]}")
+        return
+    base, idx, val = alts[0].args
+    other = fx.args[2] if alts[0] is fx.args[1] else fx.args[1]
+    m_term = base.args[1][0] if base.args[1] else None
+
+    def last(i: T) -> Optional[bool]:
+        if tm.is_const(i):
+            return i.args[1] == -1
+        if i.op == "binop" and i.args[0] == "Sub" and i.args[1] is m_term \
+                and tm.is_const(i.args[2]):
+            return i.args[2].args[1] == 1
+        return None
+    pos = [last(i) for i in idx.args] if idx.op == "tuple" and \
+        len(idx.args) == 2 else [None]
+    if None in pos or not tm.is_const(val):
+        ctx.undecidable("C03.7", f, f"[with_scale={ws}] sign-matrix entry "
+                        f"not recognised: {fmt(alts[0])[:120]}")
+        return
+    taken_when_negative = alts[0] is fx.args[1]
+    cmps = [a for a in tm.atoms(fx.args[0]) if a.op == "cmp"]
+    neg = None
+    if len(cmps) == 1 and tm.is_const(cmps[0].args[2]) and \
+            cmps[0].args[2].args[1] == 0:
+        neg = cmps[0].args[0] in ("Lt", "LtE")
+        if fx.args[0].op == "not":
+            neg = not neg
+    ok = all(pos) and val.args[1] == -1 and other is base and \
+        neg is not None and neg == taken_when_negative
+    ctx.ob("C03.7", f, ok,
+           f"[with_scale={ws}] when det(u)·det(v) is negative, S is the "
+           f"identity with the last diagonal entry -1 (flips the direction "
+           f"of the smallest singular value); otherwise S is the identity"
+           if ok else
+           f"[with_scale={ws}] reflection correction deviates from "
+           f"S = diag(1, ..., 1, -1) applied iff det(u)·det(v) < 0: "
+           f"{fmt(fx)[:160]} — a reflection is returned (or a proper "
+           f"rotation is spoilt) for mirrored inputs",
+           key="C03.7:sign-matrix")
+
+
+def _equivariance(ctx, f, ws, ret, x, y):
+    """C03.6: typed equivariance of (r, t, c) under moving, scaling,
+    replicating / permuting the points, and no mixing of the two spaces"""
+    an = Analyzer(x, y, joint_scale=not ws)
+    tag = f"[with_scale={ws}]"
+    try:
+        vr, vt, vc = (an.ev(a) for a in ret.args)
+    except Unknown as e:
+        ctx.undecidable("C03.6", f, f"{tag} equivariance typing: {e}")
+        return
+    except Inequivariant as e:
+        ctx.ob("C03.6", f, False, f"{tag} {e.msg}",
+               key=f"C03.6:{e.kind}")
+        return
+    ctx.analysed["configs"] += 0
+    ctx.note(f"C03.6 {tag}: typed {an.stats['terms']} terms, "
+             f"{an.stats['linear']} linear / {an.stats['nonlinear']} "
+             f"non-linear operations, {an.stats['reductions']} reductions "
+             f"over the points") if hasattr(ctx, "note") else None
+    ok = vr.axes == (SP_Y, SP_X) and vt.axes == (SP_Y,) and vc.axes == ()
+    ctx.ob("C03.6", f, ok,
+           f"{tag} r maps x-space to y-space, t lives in y-space, c is a "
+           f"scalar (the two coordinate spaces are never mixed)" if ok else
+           f"{tag} result types: r {vr.axes}, t {vt.axes}, c {vc.axes} — "
+           f"expected a map x-space -> y-space and a y-space vector",
+           key="C03.6:space")
+    F_ = Fraction
+    if ws:
+        want = {"r": (0, 0), "t": (0, 1), "c": (-1, 1)}
+        got = {"r": vr.deg[:2], "t": vt.deg[:2], "c": vc.deg[:2]}
+        ok = all(tuple(map(F_, want[k])) == tuple(got[k]) for k in want)
+        desc = "x -> lx·x, y -> ly·y gives r, ly·t, (ly/lx)·c"
+    else:
+        want = {"r": 0, "t": 1, "c": 0}
+        got = {"r": sum(vr.deg[:2]), "t": sum(vt.deg[:2]),
+               "c": sum(vc.deg[:2])}
+        ok = all(F_(want[k]) == got[k] for k in want)
+        desc = "scaling both sets by l gives r, l·t, c"
+    ctx.ob("C03.6", f, ok,
+           f"{tag} scaling the inputs: {desc}" if ok else
+           f"{tag} homogeneity degrees of (r, t, c) are "
+           f"{ {k: tuple(str(z) for z in (v if isinstance(v, tuple) else (v,))) for k, v in got.items()} }"
+           f", expected {want}: the result is not equivariant under "
+           f"scaling the point sets", key="C03.6:scale")
+    rep = (vr.deg[2], vt.deg[2], vc.deg[2])
+    ok = rep == (0, 0, 0)
+    ctx.ob("C03.6", f, ok,
+           f"{tag} all sums over the points are symmetric and normalised "
+           f"by n: permuting or replicating the points leaves (r, t, c) "
+           f"unchanged" if ok else
+           f"{tag} (r, t, c) grow like n^{tuple(str(z) for z in rep)} when "
+           f"the point set is replicated: a sum over the points is not "
+           f"normalised by the number of points", key="C03.6:permute")
+    r_t, c_t = ret.args[0], ret.args[2]
+    want_wx = {(() if tm.is_const(c_t) else (c_t,), (r_t,)):
+               Fraction(-1) * (Fraction(c_t.args[1]).limit_denominator(10**9)
+                               if tm.is_const(c_t) else 1)}
+    ok = vr.invariant and vc.invariant and vt.wy == {((), ()): 1} and \
+        vt.wx == want_wx
+    ctx.ob("C03.6", f, ok,
+           f"{tag} moving the sets by a, b: r and c unchanged, "
+           f"t -> t + b - c·r·a (exact translation equivariance)" if ok else
+           f"{tag} translation sensitivity of t is wx={_wshow(vt.wx)}, "
+           f"wy={_wshow(vt.wy)} (r invariant: {vr.invariant}, c invariant: "
+           f"{vc.invariant}) — expected t -> t + b - c·r·a",
+           key="C03.6:move")
+
+
+def _wshow(w):
+    if not isinstance(w, dict):
+        return str(w)
+    return {(" ".join(fmt(z)[:24] for z in k[0]),
+             " ".join(fmt(z)[:24] for z in k[1])): str(c)
+            for k, c in w.items()}
+
+
+_LOOP = ("    sigma_x = 1.0 / n * (np.linalg.norm(x - mean_x[:, np.newaxis])**2)\n"
+         "\n"
+         "    # covariance matrix, eq. 38\n"
+         "    outer_sum = np.zeros((m, m))\n"
+         "    for i in range(n):\n"
+         "        outer_sum += np.outer((y[:, i] - mean_y), (x[:, i] - mean_x))\n"
+         "    cov_xy = np.multiply(1.0 / n, outer_sum)\n")
 VARIANTS = [
+    dict(name="eqv-vectorised-covariance", file="evo/core/geometry.py",
+         find=_LOOP,
+         replace="    x_c = x - mean_x[:, np.newaxis]\n"
+                 "    y_c = y - mean_y[:, np.newaxis]\n"
+                 "    sigma_x = np.sum(x_c**2) / n\n"
+                 "    cov_xy = y_c.dot(x_c.T) / n\n", expect="silent"),
+    dict(name="eqv-covariance-transposed", file="evo/core/geometry.py",
+         find=_LOOP,
+         replace="    x_c = x - mean_x[:, np.newaxis]\n"
+                 "    y_c = y - mean_y[:, np.newaxis]\n"
+                 "    sigma_x = np.sum(x_c**2) / n\n"
+                 "    cov_xy = x_c.dot(y_c.T) / n\n", expect="fire",
+         rule="C03.6"),
+    dict(name="eqv-variance-of-y", file="evo/core/geometry.py",
+         find="np.linalg.norm(x - mean_x[:, np.newaxis])",
+         replace="np.linalg.norm(y - mean_y[:, np.newaxis])", expect="fire",
+         rule="C03.6"),
+    dict(name="eqv-variance-uncentred", file="evo/core/geometry.py",
+         find="np.linalg.norm(x - mean_x[:, np.newaxis])",
+         replace="np.linalg.norm(x)", expect="fire", rule="C03.6"),
+    dict(name="eqv-covariance-not-normalised", file="evo/core/geometry.py",
+         find="    cov_xy = np.multiply(1.0 / n, outer_sum)",
+         replace="    cov_xy = outer_sum", expect="fire", rule="C03.6"),
+    dict(name="eqv-translation-unscaled", file="evo/core/geometry.py",
+         find="    t = mean_y - np.multiply(c, r.dot(mean_x))",
+         replace="    t = mean_y - r.dot(mean_x)", expect="fire",
+         rule="C03.6"),
+    dict(name="eqv-translation-inverse-rotation", file="evo/core/geometry.py",
+         find="    t = mean_y - np.multiply(c, r.dot(mean_x))",
+         replace="    t = mean_y - np.multiply(c, r.T.dot(mean_x))",
+         expect="fire", rule="C03.6"),
+    dict(name="eqv-skips-first-point", file="evo/core/geometry.py",
+         find="    for i in range(n):", replace="    for i in range(1, n):",
+         expect="fire", rule="C03.6"),
+    dict(name="eqv-one-sided-centring", file="evo/core/geometry.py",
+         find="np.outer((y[:, i] - mean_y), (x[:, i] - mean_x))",
+         replace="np.outer(y[:, i] - mean_y, x[:, i])", expect="silent"),
+    dict(name="sign-matrix-first-entry", file="evo/core/geometry.py",
+         find="s[m - 1, m - 1] = -1", replace="s[0, 0] = -1", expect="fire",
+         rule="C03.7"),
+    dict(name="sign-matrix-negative-index", file="evo/core/geometry.py",
+         find="s[m - 1, m - 1] = -1", replace="s[-1, -1] = -1",
+         expect="silent"),
+    dict(name="sign-fix-on-positive", file="evo/core/geometry.py",
+         find="np.linalg.det(u) * np.linalg.det(v) < 0.0",
+         replace="np.linalg.det(u) * np.linalg.det(v) > 0.0", expect="fire",
+         rule="C03.7"),
     dict(name="shape-guard-removed", file="evo/core/geometry.py",
          find="    if x.shape != y.shape:\n        raise GeometryException(\"data matrices must have the same shape\")\n",
          replace="", expect="fire", rule="C03.1"),
